@@ -40,6 +40,17 @@ def common(tr):
     return v
 
 
+def handler_running(tr):
+    """events are handed to a module's handler only while the module is RUNNING (C02, C03, C08 state it as well as C01)"""
+    v = []
+    for kind, inv, r in tr.events:
+        if kind == 'I' and inv.startswith('INVOKE on_evt'):
+            cb, hd, h, stt, evs = parse_invoke(inv)
+            if stt != 'R':
+                v.append(('handler_running', 'handler invoked for %s in state %s (during `%s`)' % (h, stt, r.op)))
+    return v
+
+
 def c01(lines, out):
     tr = Trace(lines, out)
     v = common(tr)
@@ -222,6 +233,7 @@ def deliveries(tr, include_unstash=False):
 def c02(lines, out):
     tr = Trace(lines, out)
     v = common(tr)
+    v += handler_running(tr)
     sends = {}
     for r in tr.recs:
         t = r.op.split()
@@ -276,6 +288,7 @@ def c02(lines, out):
 def c08(lines, out):
     tr = Trace(lines, out)
     v = common(tr)
+    v += handler_running(tr)
     last = {}
     stashers = set(r.op.split()[1] for r in tr.recs if r.op.split()[0] == 'stash' and r.result == '0')
     for (h, topic, sender, p, sys, ud, r) in deliveries(tr):
@@ -567,6 +580,7 @@ def c18(lines, out):
 def c03(lines, out):
     tr = Trace(lines, out)
     v = common(tr)
+    v += handler_running(tr)
     owner = {}
     ever = set()
     tm_live, tm_gone, tm_low, batching = set(), set(), set(), set()
